@@ -661,6 +661,19 @@ def read_summary_unit_algebra(path, measures):
     return res["mul_unit"], res["div_unit"]
 
 
+def read_parse_guard(cpp_path):
+    """does UnitSystem::parse refuse a string that ends in its only '/' before it indexes parts[1]?"""
+    src = strip_comments_keep_strings(open(cpp_path).read())
+    body = function_body(src, r"Dimension\s+UnitSystem::parse\s*\(\s*const\s+std::string\s*&\s*dimension\s*\)\s*const\s*\{", "parse")
+    if not re.search(r"parts\s*\[\s*1\s*\]", body) or "split_string" not in body:
+        raise TranslateError("UnitSystem::parse: no longer `split_string(dimension, '/')` + `parts[1]` — review parseUB")
+    head = body[:re.search(r"parts\s*\[\s*1\s*\]", body).start()]
+    guard = re.search(r"if\s*\(\s*divCount\s*==\s*1\s*&&\s*dimension\s*\.\s*back\s*\(\s*\)\s*==\s*'/'\s*\)\s*throw\b", head)
+    if not guard and re.search(r"\.size\s*\(\s*\)|\.back\s*\(|\.empty\s*\(", head):
+        raise TranslateError("UnitSystem::parse: an unrecognised size/back/empty test precedes parts[1] — review parseUB")
+    return bool(guard)
+
+
 def generate_use(repo, measures, listed, item_dims):
     fp = os.path.join(repo, "opm/input/eclipse/EclipseState/Grid/FieldProps.hpp")
     us_cpp = os.path.join(repo, "opm/input/eclipse/Units/UnitSystem.cpp")
@@ -668,6 +681,7 @@ def generate_use(repo, measures, listed, item_dims):
     fprops = read_fieldprops_units(fp)
     uda = read_uda_dim(us_cpp, measures)
     mul, div = read_summary_unit_algebra(summ, measures)
+    guard = read_parse_guard(us_cpp)
     ks = sorted(listed)
     pos = {x: i for i, x in enumerate(ks)}
     ik = sorted(item_dims)
@@ -693,6 +707,9 @@ def generate_use(repo, measures, listed, item_dims):
           "def summaryMulUnit : List (String × String × String) := [" + ", ".join(f"({lean_str(a)}, {lean_str(b)}, {lean_str(c)})" for a, b, c in mul) + "]", "",
           "/-- Summary.cpp `div_unit`: (numerator, denominator, result) -/",
           "def summaryDivUnit : List (String × String × String) := [" + ", ".join(f"({lean_str(a)}, {lean_str(b)}, {lean_str(c)})" for a, b, c in div) + "]", "",
+          "/-- does `UnitSystem::parse` throw for a string that ends in its only `/` BEFORE it indexes `parts[1]`?",
+          "`false`: `parts[1]` of a one-element vector is read (undefined behaviour). -/",
+          f"def parseRejectsTrailingSlash : Bool := {'true' if guard else 'false'}", "",
           "end OpmVerif.Gen.UnitsUse", ""]
     return {"module": "OpmVerif.Gen.UnitsUse", "file": "UnitsUse.lean", "text": "\n".join(o), "sources": [fp, us_cpp, summ]}
 
